@@ -54,6 +54,7 @@ func init() {
 	register(&Prop{ID: "C16", Run: runC16, Replay: map[string]func(*mc.Ctx, json.RawMessage){
 		"block": replayer(c16EvalBlock),
 		"tx":    replayer(c16EvalTx),
+		"twin":  replayer(c16EvalTwin),
 	}})
 }
 
@@ -1756,4 +1757,5 @@ func runC16(c *mc.Ctx) {
 		c16RunTx(w, f.a, f.b, ops, false, len(ops) == tdepth)
 	})
 	c.Sample("tx", c16TxCase{Tx: "token", Ctor: "NewTxFromReader", Ops: []string{"Hash", "SetIndex(2)", "Hash"}})
+	runC16Twins(c)
 }
